@@ -272,6 +272,74 @@ def rule_candidate_on_page(ctx: Ctx) -> RuleResult:
     return rr
 
 
+def rule_resume_position(ctx: Ctx) -> RuleResult:
+    """calculate_visible() collects the items above the focus in one loop and, when rows are left over at the bottom,
+    *resumes* upwards later from the remembered position of the topmost item collected (`pos = top_pos`).  The
+    remembered position has to name every item that went into the list: between the walker call that yields an item's
+    position and the append of that item, the position is stored into the resume variable on every path.  Seed
+    C07-r8a moved the store behind the append (after the `break` for an item crossing the top edge): the resumed loop
+    fetched that item again and it was drawn twice."""
+    from ..rules.defuse import DefUse
+
+    p = ctx.p
+    rr = RuleResult("ORDER", "C07.19", "an item is appended to a visible-items list only after its position was stored in the variable a later loop resumes from", floor=1)
+    fi = p.func(f"{LB}.calculate_visible")
+    du = DefUse(fi)
+    cfg = du.cfg
+    # resume variables: `pos = T` in front of a later walker loop, where T was assigned from a walker position
+    for n in [x for x in fi.own_nodes() if isinstance(x, ast.Assign) and len(x.targets) == 1 and isinstance(x.targets[0], ast.Name) and isinstance(x.value, ast.Name)]:
+        T, P = n.value.id, n.targets[0].id
+        stores = [dn for dn, v, how in du.defs.get(T, []) if isinstance(v, ast.Name) and v.id == P]
+        if not stores:
+            continue
+        # walker calls that define P by unpacking, and appends of tuples / records naming P
+        pdefs = [dn for dn, v, how in du.defs.get(P, []) if isinstance(v, ast.AST) and any(isinstance(c, ast.Call) and callee_name(c) in ("get_prev", "get_next") for c in ast.walk(v))]
+        for pd in pdefs:
+            loop_nodes = cfg.reachable([pd], labels=("n", "T", "F"))
+            for a in cfg.nodes:
+                if a not in loop_nodes:
+                    continue
+                apps = [c for e in node_exprs(a) for c in ast.walk(e) if isinstance(c, ast.Call) and isinstance(c.func, ast.Attribute) and c.func.attr == "append" and any(isinstance(x, ast.Name) and x.id == P for x in ast.walk(c))]
+                if not apps:
+                    continue
+                # only appends fed by this walker call (no other definition of P in between)
+                others = [d for d in pdefs if d is not pd] + [dn for dn, v, how in du.defs.get(P, []) if dn not in pdefs]
+                if a not in cfg.reachable([pd], avoid=others, labels=("n", "T", "F")):
+                    continue
+                if not any(s_ in cfg.reachable([pd], avoid=others, labels=("n", "T", "F")) for s_ in stores):
+                    continue  # this loop does not feed the resume variable (the loop below the focus)
+                ok = not (a in cfg.reachable([pd], avoid=stores + others, labels=("n", "T", "F")))
+                rr.inst(f"{norm(apps[0], 50)}", True, {"append": norm(apps[0], 60), "resume_variable": T, "position": P, "stored_before_append": ok})
+                if not ok:
+                    rr.add(finding("ORDER", fi, apps[0], f"`{norm(apps[0], 60)}` can run before `{T} = {P}`: the item is in the list, but the position the later loop resumes from (`{P} = {T}`) still names the item below it - when rows are left over the item is fetched and drawn a second time", construct=f"append before the resume position {T} is stored"))
+    return rr
+
+
+def rule_walker_focus_notifies(ctx: Ctx) -> RuleResult:
+    """'the visible window shows the walker's items around the focus': the ListBox learns of a focus change made
+    through the walker (ListBox.set_focus(), focus_position = n, a program calling walker.set_focus()) only by the
+    walker's 'modified' signal - that is what drops the cached canvas.  Every set_focus() of a ListWalker class in
+    listbox.py calls self._modified() on every way to its normal end.  Seed C07-r8b removed the call from
+    SimpleFocusListWalker.set_focus(): the next rendering was the old frame, the new focus item had no row."""
+    p = ctx.p
+    rr = RuleResult("INV", "C07.18", "every list walker's set_focus() announces the change (self._modified()) on every way to its normal end", floor=2)
+    m = p.modules["urwid.widget.listbox"]
+    lw = p.cls("urwid.widget.listbox.ListWalker")
+    for cls in m.classes:
+        if cls is lw or lw not in p.mro(cls):
+            continue
+        fi = cls.methods.get("set_focus")
+        if fi is None:
+            continue
+        cfg = cfg_of(fi)
+        notes = nodes_where(cfg, lambda x: isinstance(x, ast.Call) and isinstance(x.func, ast.Attribute) and x.func.attr == "_modified" and isinstance(x.func.value, ast.Name) and x.func.value.id == fi.self_name)
+        ok = bool(notes) and cfg.must_pass(cfg.entry, notes, ends=[cfg.exit], labels=("n", "T", "F"))
+        rr.inst(short(fi), True, {"method": short(fi), "modified_calls": len(notes), "on_every_path": ok})
+        if not ok:
+            rr.add(finding("INV", fi, fi.node, f"{short(fi)}() can store the new focus and return without self._modified(): the ListBox keeps serving the canvas cached for the old focus (same size, same focus flag) - the window is not around the new focus item", construct=f"{cls.name}.set_focus without _modified()"))
+    return rr
+
+
 def rule_layout_with_own_flag(ctx: Ctx) -> RuleResult:
     """calculate_visible(size, focus) does not only measure: with focus=True it moves the focus widget so that its
     cursor row is inside the box.  A method that was told the box's focus state and lays the box out to locate
@@ -320,6 +388,8 @@ def run(ctx: Ctx):
         optcall.run_optcall(p, "C07.13b", ("urwid.widget.listbox",), floor=5),
         rule_candidate_on_page(ctx),
         rule_layout_with_own_flag(ctx),
+        rule_walker_focus_notifies(ctx),
+        rule_resume_position(ctx),
     ]
 
 
